@@ -113,7 +113,7 @@ PROPS["C01"] = dict(
 )
 
 PROPS["C14"] = dict(
-    modules=["Morlock.Props.C14", "Morlock.Props.GenTie", "Morlock.Props.C05Sync"],
+    modules=["Morlock.Props.C14", "Morlock.Props.GenTie", "Morlock.Props.C05Sync", "Morlock.Props.C14Print"],
     streams=["fencanon", "game", "engine"],
     level_text="Lean theorems (full): decode (encode p c np fm) = (p, c, np, fm) for EVERY position whose views agree (Rep), all rights sets, any target square, clocks up to int64 "
                "(decode_encode; the int64 bound is proved necessary); encode (decode s) = s for every canonical FEN string (encode_decode, with Canonical the standard grammar), "
@@ -123,7 +123,7 @@ PROPS["C14"] = dict(
     technique="Lean 4 proof (run-length rank codec, 8x8 grid, Rep machinery, Nat.toDigits round trip) + differential impl/model/spec over canonical FENs and game histories",
     rule="canonical FENs of generated positions with all 16 rights sets, e.p. on both ranks, both sides, clocks 0..10^6; game histories with castling, e.p., promotions, "
          "take-backs and forks; non-trivial = distinct (position key, clocks) / history containing a special move, draw, fork or pop",
-    partial=["'the FEN an engine reports is the standard FEN of its game': C05Sync.fen_agrees / position_agrees prove, for every board built by set-up, generated moves, take-backs and forks, that what the FEN encodes (placement, rights, e.p. target, side, half-move clock, full-move number) is that of the reference game; that Model.Fen.encode and Spec.printFen print equal fields as equal strings is decided by the streams"],
+    partial=["'the FEN an engine reports is the standard FEN of its game' is a theorem for every board built by set-up, generated moves, take-backs and forks: C14Print.reported_fen_is_standard / engine_position_is_standard (Fen.encode of the board = the FEN string of the whole-history reference game; encode_eq_printFen proves the two printers equal as strings); boards outside GenGame (set-ups that are not PosOK, pops below a fork point): streams"],
     modelled=["board/fen/fen.go: Decode, Encode and helpers -> Model.Fen", "board/board.go clocks -> Model.Board"],
 )
 
@@ -323,7 +323,7 @@ PROPS["C11"] = dict(
 )
 
 PROPS["C12"] = dict(
-    modules=["Morlock.Props.C12", "Morlock.Props.C11"],
+    modules=["Morlock.Props.C12", "Morlock.Props.C11", "Morlock.Props.C12More"],
     streams=["c12"],
     timeout=dict(quick=900, thorough=6000),
     level_text="Lean theorems (for EVERY cancellation poll index k): the search reports halted exactly when its last poll saw the cancellation (reports_halted is the definition of "
@@ -334,7 +334,7 @@ PROPS["C12"] = dict(
     level_note="Trusted: Lean kernel; Model.Search poll placement tied by exact agreement on halted/not-halted for every k tried. PV equality of the follow-up search is not claimed (table hits may cut the PV at different places); its score is.",
     technique="Lean 4 proof (liveness flag in the node contract; stores guarded by polls) + fault enumeration over cancellation polls",
     rule="positions x depth 1-3 x cancel point k over the polls of the undisturbed search; sequence halt -> search (optionally search -> halt -> search); drawn roots; non-trivial = distinct script",
-    partial=["follow-up search: score equality proved, PV equality not claimed", "board hand-back after a halt: stream only", "Minimax polls: no theorem"],
+    partial=["follow-up search: same score and a principal (best) line, proved (C12More.followup_pv_principal*); the SAME line is not guaranteed and not claimed - followup_pv_may_differ / followup_first_move_may_differ are kernel-checked counterexamples (an exact table hit carries no continuation; a stored root move breaks ties) - it is the same line when the halted search left the table unchanged (followup_identical_of_table_unchanged)", "board hand-back after a halt: stream only", "Minimax: minimax_halt_invalid, minimax_halted_at (the run makes exactly mmNodes + 1 polls: every cancellation point characterised), minimax_no_cancel_eq_V (value = reference V, principal line), minimax_eq_alphabeta - proved for the transcription Model.minimax / Model.Minimax.minimaxSearch, which the c03 stream compares with the Go Minimax only through its results (second-opinion op), not poll by poll"],
     modelled=SEARCH_MODELLED,
 )
 
